@@ -919,19 +919,33 @@ ERR_CLASS = {-1: 0, -2: 1, -3: 2, -4: 3, -5: 4, -6: 5, -7: 6, -8: 7, -9: 8, -10:
 # libusb_transfer_status -> class of the error poll returns (0 = completed)
 STATUS_CLASS = {1: 13, 3: 6, 4: 8, 5: 3, 6: 7}
 STUCK = 1000000
-SUBMIT, POLL, PENDING, CANCEL, PDROP, PNEW, EMPTY, ARM = 1, 2, 3, 4, 5, 6, 7, 9
+SUBMIT, POLL, PENDING, CANCEL, PDROP, PNEW, EMPTY, ARM, LOCK = 1, 2, 3, 4, 5, 6, 7, 9, 10
+# entries of the lock plan (what the other threads of the process do with libusb's events lock during one round of
+# poll_completed): OWN = nothing, this thread gets the lock; GONE = the lock is taken, its holder has left when this
+# thread asks libusb_event_handler_active; ACTIVE(n) = another thread handles events, a wait for it returns after n us
+OWN, GONE = 0, 1
 
 
-def pool_case(plan, ops, note="", evs=()):
+def ACTIVE(us):
+    return 2 + us
+
+
+def lock_name(e):
+    return "own" if e <= 0 else "held-gone" if e == 1 else "held-active(%d us)" % (e - 2)
+
+
+def pool_case(plan, ops, note="", evs=(), lks=()):
     """plan: [('r', code) | ('a', status, len, delay[, cancellation latency])] per libusb_submit_transfer call;
-    evs: return code of each libusb_handle_events_locked call in turn; ops: [(op, arg)]"""
+    evs: return code of each libusb_handle_events_locked call in turn; lks: lock-plan entry of each round of
+    poll_completed in turn; ops: [(op, arg)]"""
     plan = [e if e[0] == "r" or len(e) == 5 else tuple(e) + (0,) for e in plan]
     t = [len(plan)]
     for e in plan:
         t += [0, e[1]] if e[0] == "r" else [1, e[1], e[2], e[3], e[4]]
     t += [len(evs)] + list(evs)
+    t += [len(lks)] + list(lks)
     t += [len(ops)] + [v for o in ops for v in o]
-    return Case("pool2", t, meta=dict(plan=list(plan), evs=list(evs), ops=list(ops), note=note, fam="pool"))
+    return Case("pool3", t, meta=dict(plan=list(plan), evs=list(evs), lks=list(lks), ops=list(ops), note=note, fam="pool"))
 
 
 def pool_boundary_cases():
@@ -962,7 +976,7 @@ def pool_boundary_cases():
                             note="drop with transfers in flight (front due after %d polls) and one refused" % d))
     cs.append(pool_case([], [(PENDING, 0), (EMPTY, 0), (CANCEL, 0), (PDROP, 0), (PNEW, 0), (EMPTY, 0)], note="empty pool"))
     cs.append(pool_case([("r", -4)] * 6, [(SUBMIT, 8), (PENDING, 0)] * 6 + [(PDROP, 0)], note="every submission refused"))
-    return cs + pool_cleanup_cases()
+    return cs + pool_cleanup_cases() + pool_lock_cases()
 
 
 def pool_cleanup_cases():
@@ -1021,6 +1035,75 @@ def pool_cleanup_cases():
     return cs
 
 
+def pool_lock_cases():
+    """poll_completed and the other threads of the process: every kind of lock-plan entry at every round position of
+    a poll whose front transfer is due, of a poll whose front transfer is not yet due (later ones are), and of the
+    clean-up of a dropped pool; mixed with failing event handling and cancellation latencies.  The time-out of the
+    polls is 10 ms = 10000 us (1 s inside Drop): waits of 0, 100, 9999 us end in time, 10000 and more time out."""
+    cs = []
+    INTR = -10
+    entries = [OWN, GONE, ACTIVE(0), ACTIVE(100), ACTIVE(9999), ACTIVE(10000), ACTIVE(10001), ACTIVE(2000000)]
+    names = lambda l: "[" + ", ".join(lock_name(e) for e in l) + "]"
+    # (A) the front transfer is due.  Rounds in which the holder of the lock has left come first (they take no time)
+    for k in range(4):
+        for x in entries:
+            for evs in ([], [INTR], [-7], [0, INTR]):
+                lks = [GONE] * k + [x]
+                cs.append(pool_case([("a", 0, 8, 0, 0), ("a", 0, 9, 0, 0)],
+                                    [(SUBMIT, 16)] * 2 + [(POLL, 10), (PENDING, 0), (POLL, 10), (PENDING, 0)], evs=evs, lks=lks,
+                                    note="lock plan %s, event results %r: both transfers delivered at once" % (names(lks), evs)))
+    # the scenario of one frame (5 transfers, each delivered just before its poll): the lock is taken and its holder gone
+    # (or another thread handles the events) in the round of poll number p
+    for p in range(5):
+        for x in (GONE, ACTIVE(0), ACTIVE(300), ACTIVE(10000)):
+            for tail in ([], [GONE], [GONE, GONE, ACTIVE(10)]):
+                lks = [OWN] * p + [x] + tail
+                cs.append(pool_case([("a", 0, 8 + i, i, 0) for i in range(5)], [(SUBMIT, 16)] * 5 + [(POLL, 10), (PENDING, 0)] * 6,
+                                    lks=lks, note="frame of 5 transfers, transfer i delivered before poll i; lock plan %s" % names(lks)))
+    # (B) the front transfer is not due yet (after one more poll / never), the one behind it is
+    for d in (1, STUCK):
+        for pre in ([], [GONE], [ACTIVE(50)], [ACTIVE(50), GONE], [GONE, ACTIVE(50), ACTIVE(50)], [OWN], [OWN, GONE]):
+            for x in entries:
+                for evs in ([], [INTR]):
+                    lks = pre + [x]
+                    cs.append(pool_case([("a", 0, 8, d, 0), ("a", 0, 9, 0, 0)],
+                                        [(SUBMIT, 16)] * 2 + [(POLL, 10), (PENDING, 0)] * 3, evs=evs, lks=lks,
+                                        note="front transfer due after %d polls, the second at once; lock plan %s, event results %r" % (d, names(lks), evs)))
+    # (C) the clean-up of a dropped pool (1 s per poll): abandoned transfers with cancellation latencies
+    scen = [("mid-frame fault (2 abandoned)", [0, 0, 4, None, None], 3, 2), ("idle time-out (5 abandoned)", [None] * 5, 1, 5),
+            ("single transfer abandoned", [None], 1, 1)]
+    lats = [("no cancellation latency", lambda i, n: 0), ("cancellation of the first abandoned transfer takes 1 round", lambda i, n: 1 if i == 0 else 0),
+            ("every cancellation takes 2 rounds", lambda i, n: 2)]
+    dentries = [GONE, ACTIVE(0), ACTIVE(100), ACTIVE(999999), ACTIVE(1000000), ACTIVE(3000000)]
+    for what, comp, npoll, nab in scen:
+        n = len(comp)
+        for lwhat, lat in lats:
+            plan = []
+            for i, st in enumerate(comp):
+                ab = i - (n - nab)
+                plan.append(("a", st or 0, 8 + i, STUCK if st is None else 0, lat(ab, nab) if ab >= 0 else 0))
+            for j in range(4):
+                for x in dentries:
+                    for fail in ([], [INTR], [0, INTR]):
+                        lks = [OWN] * j + [x]
+                        ops = [(SUBMIT, 16)] * n + [(POLL, 10)] * npoll + [(PENDING, 0)] + [(ARM, c) for c in fail] + [(LOCK, e) for e in lks]
+                        ops += [(PDROP, 0), (PNEW, 0), (SUBMIT, 8), (POLL, 10), (EMPTY, 0)]
+                        cs.append(pool_case(plan, ops, note="clean-up after %s; %s; lock plan of the clean-up %s%s" % (
+                            what, lwhat, names(lks), "; event handling interrupted at call %d" % (len(fail) - 1) if fail else "")))
+            for lks in ([GONE] * 3, [GONE, ACTIVE(5), GONE, ACTIVE(1000000), GONE], [ACTIVE(1000000)] * 3, [ACTIVE(7)] * 6):
+                ops = [(SUBMIT, 16)] * n + [(POLL, 10)] * npoll + [(LOCK, e) for e in lks] + [(PDROP, 0)]
+                cs.append(pool_case(plan, ops, note="clean-up after %s; %s; lock plan of the clean-up %s" % (what, lwhat, names(lks))))
+    # (D) cancel_all, then polls that wait out the cancellation latencies while another thread handles the events
+    for k in (1, 2, 3):
+        plan = [("a", 0, 8, STUCK, k), ("a", 0, 9, STUCK, 0), ("a", 0, 10, STUCK, k)]
+        for lks in ([ACTIVE(10)] * (k + 1), [ACTIVE(10), GONE] * (k + 1), [GONE] * k + [ACTIVE(10000)], [ACTIVE(5000)] * 3):
+            cs.append(pool_case(plan, [(SUBMIT, 16)] * 3 + [(CANCEL, 0)] + [(POLL, 10), (PENDING, 0)] * (k + 4) + [(EMPTY, 0)], lks=lks,
+                                note="cancel_all, cancellations of the first and last transfer take %d rounds; lock plan %s" % (k, names(lks))))
+    cs.append(pool_case([("a", 0, 8, 0, 0)], [(SUBMIT, 16), (POLL, 0), (PENDING, 0), (POLL, 10), (PENDING, 0)], lks=[GONE, ACTIVE(3)],
+                        note="a poll with a zero time-out takes no round of the lock plan"))
+    return cs
+
+
 def pool_random_case(rng):
     plan = []
     slow = rng.chance(1, 2)
@@ -1034,10 +1117,19 @@ def pool_random_case(rng):
     if rng.chance(1, 2):
         for _ in range(rng.range(0, 8)):
             evs.append(0 if rng.chance(2, 3) else rng.choice([-10, -10, -10] + REFUSE_CODES))
+    lks = []
+    locks = rng.chance(1, 2)
+    lock_choices = [OWN, OWN, GONE, GONE, GONE, ACTIVE(0), ACTIVE(50), ACTIVE(5000), ACTIVE(9999), ACTIVE(10000), ACTIVE(20000),
+                    ACTIVE(999999), ACTIVE(1000000), ACTIVE(3000000)]
+    if locks:
+        for _ in range(rng.range(0, 10)):
+            lks.append(rng.choice(lock_choices))
     ops = []
     for _ in range(rng.range(1, 24)):
-        k = rng.below(13)
-        if k < 5:
+        k = rng.below(14 if locks else 13)
+        if k == 13:
+            ops += [(LOCK, rng.choice(lock_choices)) for _ in range(rng.range(1, 4))]
+        elif k < 5:
             ops.append((SUBMIT, rng.range(0, 32)))
         elif k < 8:
             ops.append((POLL, 10 if rng.chance(9, 10) else 0))
@@ -1051,16 +1143,34 @@ def pool_random_case(rng):
             ops += [(ARM, 0 if rng.chance(1, 3) else rng.choice([-10, -10] + REFUSE_CODES)) for _ in range(rng.range(1, 3))]
         else:
             ops.append((EMPTY, 0))
-    return pool_case(plan, ops, note="random", evs=evs)
+    return pool_case(plan, ops, note="random", evs=evs, lks=lks)
+
+
+def _first_round(lkq, evq, budget_us):
+    """What the rounds of a poll_completed call can do for a transfer that completes at the next event handling, given
+    what the other threads do with the events lock (lkq) and the results of this thread's event handling (evq) from
+    here on: rounds in which the holder of the lock has left when asked take no time and are skipped; the first other
+    round decides."""
+    i = 0
+    while i < len(lkq) and lkq[i] == GONE:
+        i += 1
+    e = lkq[i] if i < len(lkq) else OWN
+    if e >= 2:
+        return ("handled", i, e) if e - 2 < budget_us else ("wait-timeout", i, e)
+    code = evq[0] if evq else 0
+    return ("handled", i, e) if code == 0 else ("ev-timeout", i, e) if code == -7 else ("ev-error", i, e)
 
 
 def pool_predicate(c, out):
     """The property on the output of the real AsyncPool alone (the harness's own observations: what each call
-    returned, pending() after every poll, the fake libusb's ledger): operations return (no wedge); a refused
-    submission is reported with its error and leaves the pool as it was; a poll either returns the completion
-    of the OLDEST accepted transfer not yet returned (with the device's data in the right buffer) and removes
-    exactly it, or fails (time-out, event-handling error) and leaves `pending` as it was; and after a drop no
-    transfer is in flight and none was freed while libusb still had it, however the clean-up was disturbed."""
+    returned, pending() after every poll, the number of rounds / event-handling calls it took, the fake libusb's
+    ledger): operations return (no wedge); a refused submission is reported with its error and leaves the pool as it
+    was; a poll either returns the completion of the OLDEST accepted transfer not yet returned (with the device's data
+    in the right buffer) and removes exactly it, or fails (time-out, event-handling error) and leaves `pending` as it
+    was; a transfer the device has delivered is returned, not a time-out, whenever the rounds of the poll allow one
+    event handling before the time-out has gone by - whatever other threads do with libusb's events lock, in
+    particular when the lock was taken for a moment by a thread that is gone when this one looks; and after a drop
+    no transfer is in flight and none was freed while libusb still had it, however the clean-up was disturbed."""
     if out in ([3], [4]) or out is None:
         return ("the harness hung or died: an AsyncPool operation (poll / drop) never returned - "
                 "it waits for a transfer libusb never accepted (or that was completed long ago): %r" % (out,))
@@ -1072,6 +1182,20 @@ def pool_predicate(c, out):
     inpool = []          # accepted and not reaped, in submission order: [status, len, due epoch, cancel requested]
     have_pool = True
     epoch = 0
+    # what is left of the two scripts, by the harness's own count of the calls made so far
+    lkq = list(c.meta.get("lks", ()))
+    evq = list(c.meta["evs"])
+    rounds_seen = evcalls_seen = 0
+
+    def consume(rounds, evcalls):
+        nonlocal rounds_seen, evcalls_seen
+        if rounds < rounds_seen or evcalls < evcalls_seen:
+            return "the call counts of the fake libusb went backwards"
+        del lkq[:rounds - rounds_seen]
+        del evq[:evcalls - evcalls_seen]
+        rounds_seen, evcalls_seen = rounds, evcalls
+        return None
+
     for op, arg in c.meta["ops"]:
         if op == SUBMIT:
             if not have_pool:
@@ -1102,6 +1226,8 @@ def pool_predicate(c, out):
                 return "poll panicked"
             epoch += 1
             st, ln, due, canc = inpool[0]
+            delivered = due < epoch          # the device has completed it: the next event handling runs its callback
+            can = _first_round(lkq, evq, arg * 1000) if arg > 0 else ("no-time", 0, OWN)
             if out[p] == 0:
                 pend = out[p + 3]
                 if pend != len(inpool) - 1:
@@ -1112,23 +1238,38 @@ def pool_predicate(c, out):
                         out[p + 1], "ok" if out[p + 2] == 1 else "wrong", ln)
                 if st != 0:
                     return "poll returned Ok for a transfer that completed with status %d" % st
-                p += 4
+                if not delivered:
+                    return "poll returned Ok for a transfer the device has not completed yet"
+                bad = consume(out[p + 4], out[p + 5])
+                p += 6
             else:
                 cls, pend = out[p + 1], out[p + 2]
+                rounds = out[p + 3] - rounds_seen
                 if pend == len(inpool) - 1:
                     # the front transfer was reaped: the error is its completion (CANCELLED is reported as a time-out)
                     inpool.pop(0)
                     if not (STATUS_CLASS.get(st) == cls or (canc and cls == 6)):
                         return "poll returned error class %d and reaped the next transfer in submission order, which completed with status %d" % (cls, st)
+                    if not delivered and not canc:
+                        return "poll reaped a transfer the device has not completed and nobody cancelled"
                 elif pend == len(inpool):
                     # nothing reaped: a time-out, or event handling failed
                     if cls != 6 and cls not in evclasses:
                         return "poll returned error class %d without reaping a transfer; event handling never fails that way here" % cls
-                    if cls == 6 and not evcodes and not canc and due < epoch and arg > 0:
-                        return "poll timed out although the device had completed the front transfer"
+                    if delivered and can[0] == "handled":
+                        skipped = can[1]
+                        return ("poll(%d ms) returned %s and left the front transfer pending although the device had delivered it before the poll began and "
+                                "events could be handled in time: %s the round was %s%s - a transfer that arrived completely and in time is "
+                                "reported as a failure (the poll took %d round(s) of the loop)" % (
+                                    arg, "Timeout" if cls == 6 else "error class %d" % cls,
+                                    ("in %d round(s) the events lock was taken by a thread that had left when this one looked (these take no time), then" % skipped) if skipped else "",
+                                    "this thread's own" if can[2] < 2 else lock_name(can[2]), " with a successful event handling" if can[2] < 2 else "", rounds))
                 else:
                     return "a failing poll changed pending() from %d to %d: a transfer was lost" % (len(inpool), pend)
-                p += 3
+                bad = consume(out[p + 3], out[p + 4])
+                p += 5
+            if bad:
+                return bad
         elif op == PENDING:
             v = out[p]
             p += 1
@@ -1150,10 +1291,17 @@ def pool_predicate(c, out):
                 if out[p:p + 2] != [0, 0]:
                     return ("after the drop of the pool (%d transfers pending when it began) %d transfers are in flight, %d were freed "
                             "while libusb still had them in flight (the completion flag and the buffer go with them)" % (len(inpool), out[p], out[p + 1]))
-                p += 3
+                bad = consume(out[p + 3], out[p + 2])
+                if bad:
+                    return bad
+                p += 4
                 have_pool, inpool = False, []
         elif op == PNEW:
             have_pool = True
+        elif op == ARM:
+            evq.append(arg)
+        elif op == LOCK:
+            lkq.append(arg)
     if out[p] != -9:
         return "output not understood at %d: %r" % (p, _clip(out))
     calls, acc, ref, comp, nf, infl, freed, evcalls = out[p + 1:p + 9]
@@ -1173,7 +1321,7 @@ def run_pool_family(ck):
     rng = Rng(ck.seed + 77)
     cases = pool_boundary_cases() + [pool_random_case(rng) for _ in range(500 if ck.tier == "quick" else 8000)]
     impl = ck.run_impl(binary, [c.line for c in cases], jobs=NPROC, timeout=120 if ck.tier == "quick" else 1500)
-    model = ck.run_model_terms(["AsyncPool"], ["run_pool2 %s" % zlist(c.expanded()) for c in cases], per_eval=100)
+    model = ck.run_model_terms(["AsyncPool"], ["run_pool3 %s" % zlist(c.expanded()) for c in cases], per_eval=100)
     # a case the process did not survive is [4] on the implementation side and [3] (never returns) in the model
     ck.compare(cases, impl, model, pool_predicate, lambda c, o: bool(o) and len(o) > 12, None,
                correspondence="real AsyncPool (device/src/u3v/async_read.rs over the fake libusb) = model/AsyncPool.v on the same operation sequence",
@@ -1182,6 +1330,13 @@ def run_pool_family(ck):
     ck.dist["pool_event_failures_scripted"] = sum(1 for c in cases for v in c.meta["evs"] if v) + sum(1 for c in cases for o, a in c.meta["ops"] if o == ARM and a)
     ck.dist["pool_slow_cancellations_scripted"] = sum(1 for c in cases for e in c.meta["plan"] if e[0] == "a" and e[4])
     ck.dist["pool_drops_of_a_nonempty_pool_disturbed"] = sum(1 for c in cases if "clean-up" in c.meta["note"])
+    locks = [e for c in cases for e in c.meta["lks"]] + [a for c in cases for o, a in c.meta["ops"] if o == LOCK]
+    ck.dist["pool_lock_rounds_scripted"] = {"held_gone": sum(1 for e in locks if e == GONE), "held_active": sum(1 for e in locks if e >= 2),
+                                            "own_explicit": sum(1 for e in locks if e <= 0)}
+    # observed by the fake libusb: [trylock calls, failed, waits for another handler, waits with no active handler, virtual us]
+    obs = [o[-5:] for o in impl if o and len(o) > 13 and o[-14] == -9]
+    ck.dist["pool_lock_protocol_observed"] = {"try_lock_calls": sum(o[0] for o in obs), "try_lock_failed": sum(o[1] for o in obs),
+                                              "waits_for_event": sum(o[2] for o in obs), "waits_with_no_active_handler": sum(o[3] for o in obs)}
 
 
 
@@ -1223,7 +1378,7 @@ def main():
         "rust/achan: the real async-channel behind a wrapper that performs and logs every operation under one lock (total order of the trace)",
         "std::sync::mpsc zero-capacity channel and async-channel are modelled (atomic FIFO / rendezvous operations), thread scheduling is sampled, not enumerated",
         "tools/c12.py labels_of_trace: placement of the unobservable cancellation check / send registration between observed events",
-        "rust/h_async/src/fake_usb.rs: in-memory libusb (enumeration always succeeds; scripted submit refusals / completions / cancellation latencies; every libusb_handle_events_locked call returns the next scripted code and, when 0, completes what is due or whose cancellation latency has run out) and a virtual CLOCK_MONOTONIC (clock_gettime defined in the harness binary; an idle event-handling call consumes its timeval) under the REAL cameleon-device crate and rusb",
+        "rust/h_async/src/fake_usb.rs: in-memory libusb (enumeration always succeeds; scripted submit refusals / completions / cancellation latencies; every libusb_handle_events_locked call returns the next scripted code and, when 0, completes what is due or whose cancellation latency has run out; the events lock follows a script per round of poll_completed: free / held by a thread that handles events and wakes the waiters after n virtual us / taken by a thread that has left when libusb_event_handler_active is asked - a wait with no active handler sleeps its whole timeval with nothing handled; one thread really runs) and a virtual CLOCK_MONOTONIC (clock_gettime defined in the harness binary; an idle event-handling call or wait consumes its timeval) under the REAL cameleon-device crate and rusb",
     ]
     ck.prove()
     ck.phase("prove")
